@@ -272,6 +272,15 @@ func (s *Stack) trace(ctx context.Context) *Trace {
 	return t
 }
 
+// OrphanBill returns a copy of the billing records made by requests that did
+// not come through Serve (for example requests served by a real listener that
+// uses s.Handlers directly), in the order they were recorded.
+func (s *Stack) OrphanBill() []BillRec {
+	s.orphan.mu.Lock()
+	defer s.orphan.mu.Unlock()
+	return append([]BillRec(nil), s.orphan.Bill...)
+}
+
 func (s *Stack) yield() {
 	if s.Opts.Yield != nil {
 		s.Opts.Yield()
